@@ -482,7 +482,7 @@ pub fn rename_menu(pkt: &[u8], seed: u64, n: usize) -> Option<String> {
 // C12 header setters: one event per initial flag word, vectors of (argument, result) inside
 
 /// question + optional opaque padding record (additional section) + optional OPT advertising `payload`
-fn hdr_packet(tid: u16, w: u16, xfl: Option<u16>, pad: usize, payload: u16) -> Vec<u8> {
+fn hdr_packet(tid: u16, w: u16, xfl: Option<u16>, pad: usize, payload: u16, xrv: (u8, u8)) -> Vec<u8> {
     let ar = (if xfl.is_some() { 1 } else { 0 }) + (if pad > 0 { 1 } else { 0 });
     let mut p = vec![(tid >> 8) as u8, tid as u8, (w >> 8) as u8, w as u8, 0, 1, 0, 0, 0, 0, 0, ar];
     p.extend(&[1, b'h', 0, 0, 1, 0, 1]);
@@ -491,7 +491,7 @@ fn hdr_packet(tid: u16, w: u16, xfl: Option<u16>, pad: usize, payload: u16) -> V
         p.extend(vec![b'.'; pad]);
     }
     if let Some(x) = xfl {
-        p.extend(&[0, 0, 41, (payload >> 8) as u8, payload as u8, 2, 1, (x >> 8) as u8, x as u8, 0, 0]);
+        p.extend(&[0, 0, 41, (payload >> 8) as u8, payload as u8, xrv.0, xrv.1, (x >> 8) as u8, x as u8, 0, 0]);
     }
     p
 }
@@ -502,7 +502,9 @@ pub fn header_event(v: &Value) -> String {
     let xfl = v["xfl"].as_i64().and_then(|x| if x < 0 { None } else { Some(x as u16) });
     let pad = v["pad"].as_u64().unwrap_or(0) as usize;
     let payload = v["payload"].as_u64().unwrap_or(1232) as u16;
-    let base = hdr_packet(tid, w, xfl, pad, payload);
+    // extended rcode and EDNS version bytes of the OPT record (default 2, 1)
+    let xrv = (v["xrcode"].as_u64().unwrap_or(2) as u8, v["ver"].as_u64().unwrap_or(1) as u8);
+    let base = hdr_packet(tid, w, xfl, pad, payload, xrv);
     let fresh = || DNSSector::new(base.clone()).unwrap().parse();
     if fresh().is_err() {
         return format!("{{\"k\":\"hdr\",\"w\":{},\"res\":\"base-rejected\"}}", w);
@@ -590,7 +592,7 @@ pub fn header_event(v: &Value) -> String {
 /// for which set_flags(w, a) differs from set_flags(w, 0) | set_flags(0, a); with the tables
 /// f(w, 0) and f(0, a) validated by TLC this extends the validation to all pairs.
 pub fn decomposition_sweep(threads: usize) -> String {
-    let base = hdr_packet(0, 0, None, 0, 1232);
+    let base = hdr_packet(0, 0, None, 0, 1232, (2, 1));
     let f = |pp: &mut ParsedPacket, w: u16, a: u32| -> u16 {
         {
             let p = pp.packet_mut();
